@@ -199,18 +199,22 @@ def applyEffect (prog : Bytes) (d : SMetric) (labels : List Bytes) (s : Store) :
     (p.1, p.2.map (fun m => if m.prog = prog ∧ m.typ = d.typ ∧ m.source = d.source ∧ m.keys = d.keys ∧ m.kind = d.kind
       then incAt m labels else m)) else p)
 
-/-- one log line handed to every loaded program (`matches` = the line matches the catalogue's
-    pattern; the key is the line itself) -/
+/-- one log line handed to every loaded program (`isMatch` = the line matches the catalogue's
+    pattern; the key is the line itself).  Effect 1 = `m[$1,…]++` inside the pattern block,
+    effect 2 = a scalar `m++` at the end of the program (reached unless a runtime error ended
+    the line early). -/
 def line (r : RT) (key : Bytes) (isMatch : Bool) : RT :=
   let r := { r with lineCount := r.lineCount + 1 }
-  if !isMatch then r else
   r.handles.foldl (fun r h =>
     let v := h.2.version
-    if v.runtimeError then { r with runtimeErrors := bump h.1 r.runtimeErrors }
+    if isMatch ∧ v.runtimeError then { r with runtimeErrors := bump h.1 r.runtimeErrors }
     else
       (v.decls.zip v.effect).foldl (fun r de =>
-        if de.2 = 1 ∧ !de.1.hidden then
+        if de.1.hidden then r
+        else if de.2 = 1 ∧ isMatch then
           { r with store := applyEffect h.1 de.1 (de.1.keys.map (fun _ => key)) r.store }
+        else if de.2 = 2 then
+          { r with store := applyEffect h.1 de.1 [] r.store }
         else r) r) r
 
 end MtailVerif.Runtime
